@@ -426,6 +426,50 @@ func iohelpLayoutRules(c *core.Ctx, p *load.Prog, rWidth, rGUID, rBuild string) 
 		}
 		c.Check(rWidth, "ReadDate = ReadDateBytes(scratch)", f.pos(), okd, "ReadDate neither decodes the scratch with ReadDateBytes nor applies the conversion ReadDateBytes applies to the int64 it reads")
 	}
+	// a date writer in iohelp (the generator's templates inline the conversion
+	// today; if a helper is introduced it is held to the same formula the
+	// signature reader demands of the inline form): ticks = UnixNano()/100, the
+	// zero time is 0 — the inverse of ReadDateBytes' time.Unix(0, ticks*100)
+	for _, name := range []string{"WriteDate", "WriteDateBytes"} {
+		fd := p.FuncDecl(p.Iohelp(), name)
+		if fd == nil || fd.Body == nil {
+			continue
+		}
+		f := &ioFn{p: p, info: p.Iohelp().TypesInfo, fd: fd, name: name}
+		n++
+		unixNano, div100, zero := false, false, false
+		var other []string
+		f.inspectAll(func(g *ioFn, nd ast.Node) bool {
+			switch x := nd.(type) {
+			case *ast.CallExpr:
+				if sel, ok := x.Fun.(*ast.SelectorExpr); ok {
+					if t := g.info.TypeOf(sel.X); t != nil && t.String() == "time.Time" {
+						switch sel.Sel.Name {
+						case "UnixNano":
+							unixNano = true
+						case "IsZero":
+							zero = true
+						default:
+							other = append(other, sel.Sel.Name)
+						}
+					}
+				}
+			case *ast.BinaryExpr:
+				if x.Op == token.QUO {
+					if v, ok := constInt(g.info, x.Y); ok && v == 100 {
+						if call, isC := ast.Unparen(x.X).(*ast.CallExpr); isC {
+							if sel, isS := call.Fun.(*ast.SelectorExpr); isS && sel.Sel.Name == "UnixNano" {
+								div100 = true
+							}
+						}
+					}
+				}
+			}
+			return true
+		})
+		c.Check(rWidth, name+" converts a time to ticks as UnixNano()/100, zero time to 0", f.pos(), unixNano && div100 && zero && len(other) == 0,
+			fmt.Sprintf("UnixNano: %v, /100: %v, IsZero test: %v, other time methods used: %v — the byte encoder's inline conversion and ReadDateBytes use UnixNano()/100; a different derivation disagrees with them for dates before 1970 and outside 1678-2262", unixNano, div100, zero, other))
+	}
 	// GUID tables
 	guidTables(c, p, rGUID)
 	c.Count("iohelp_layout_functions", n)
@@ -1047,6 +1091,20 @@ func iohelpDrain(c *core.Ctx, p *load.Prog, rule string, latch bool) {
 		}
 		return true
 	})
+	// Drain reads through the wrapper's current reader and nothing else: taking
+	// bytes from (or seeking) what a LimitedReader wraps leaves the limits of
+	// that reader and of the enclosing records stale
+	bypass := ""
+	f.inspectAll(func(g *ioFn, n ast.Node) bool {
+		if sel, ok := n.(*ast.SelectorExpr); ok && sel.Sel.Name == "R" {
+			if t := g.info.TypeOf(sel.X); t != nil && strings.Contains(t.String(), "io.LimitedReader") {
+				bypass = g.name + " uses " + wire.Canon(sel)
+			}
+		}
+		return true
+	})
+	c.Check(rule, "Drain never reaches below the length limiter", f.pos(), bypass == "",
+		bypass+": bytes taken (or skipped) below an io.LimitedReader are not counted against it, nor against the limiters of the enclosing records, which then drain into the data that follows")
 	c.Check(rule, "a loop in Drain ends exactly when a read fails", f.pos(), loopOK,
 		"Drain loops by hand and leaves the loop on something other than `err != nil` (a short read is not the end of the data; a non-EOF error that never turns into EOF must still end the loop)")
 	if !latch {
